@@ -151,9 +151,9 @@ func MixSchedule(r *rand.Rand, name string, k int) l0.Schedule {
 func BigSchedule(r *rand.Rand, name string, k int) l0.Schedule {
 	var ops []l0.Op
 	n := 0
-	total := 240
+	total := 212 // 106 per target: the default limit binds on one target
 	if k%2 == 1 {
-		total = 1330 // > 1000 on the route, > 500 per target
+		total = 1060 // > 1000 on the route, 530 per target
 	}
 	for n < total {
 		envs := make([]l0.EnvSpec, 0, 95)
@@ -167,9 +167,11 @@ func BigSchedule(r *rand.Rand, name string, k int) l0.Schedule {
 		}
 	}
 	ops = append(ops, l0.Op{Op: "Enqueue", Env: &l0.EnvSpec{ID: "other", Rt: "/r2", Tg: "t1", Pl: "b"}})
+	// the default limit (100) binds on one target of the route (>= 120 messages each); on the large population the
+	// maximum (1000) binds on the whole route, asked for as 1001 / 5000 / 1000
 	lim := func() int { return pick(r, 0, 0, 1000, 1001, 5000, 150) }
-	all := &l0.Filter{Rt: "/r1", Limit: lim()}
-	t1 := &l0.Filter{Rt: "/r1", Tg: "t1", Limit: lim()}
+	all := &l0.Filter{Rt: "/r1", Limit: pick(r, 1001, 5000, 1000)}
+	t1 := &l0.Filter{Rt: "/r1", Tg: "t1", Limit: 0}
 	t2 := &l0.Filter{Rt: "/r1", Tg: "t2", Limit: lim()}
 	ops = append(ops,
 		l0.Op{Op: "MutateFilter", MOp: "cancel", F: t1, Preview: true},
